@@ -1456,12 +1456,18 @@ def replay_c15_h2f(args):
         for msg, dst in ((b"", b"QUUX-V01-CS02"), (b"abc", b"x" * 255)):
             ub = rfc_expand_message_xmd(msg, dst, count * 64, "sha256")
             exp = [int.from_bytes(ub[64 * i:64 * i + 64], "big") % q for i in range(count)]
-            got = [int(e) for e in hash_to_field_FQ(msg, count, dst, hashlib.sha256)]
+            try:
+                got = [int(e) for e in hash_to_field_FQ(msg, count, dst, hashlib.sha256)]
+            except Exception as e:
+                got = repr(e)[:60]
             if got != exp:
                 bad.append(("FQ", count))
             ub = rfc_expand_message_xmd(msg, dst, count * 128, "sha256")
             exp = [[int.from_bytes(ub[64 * (j + 2 * i):64 * (j + 2 * i) + 64], "big") % q for j in range(2)] for i in range(count)]
-            got = [[int(c) for c in e.coeffs] for e in hash_to_field_FQ2(msg, count, dst, hashlib.sha256)]
+            try:
+                got = [[int(c) for c in e.coeffs] for e in hash_to_field_FQ2(msg, count, dst, hashlib.sha256)]
+            except Exception as e:
+                got = repr(e)[:60]
             if got != exp:
                 bad.append(("FQ2", count))
     return (len(bad) > 0), "c15_h2f: %d mismatches %s" % (len(bad), bad[:3])
